@@ -303,6 +303,10 @@ def readDataOrig (file : List Nat) (offset : Nat) (e : Endian) (cw k : Nat) (sha
 def loadedAt (shape : List Nat) (els : List Elem) (i : List Nat) : Elem :=
   els.getD (ravelF shape i) []
 
+/-- `loadedAt` on an `Array` (O(1) lookup; used by the driver for arrays of > 10^5 elements) -/
+def loadedAtA (shape : List Nat) (els : Array Elem) (i : List Nat) : Elem :=
+  els.getD (ravelF shape i) []
+
 /-! ### MGH (freesurfer/mghformat.py) -/
 
 /-- `MGHImage.__init__`: data of rank < 3 is reshaped to rank 3 by appending length-1 axes -/
@@ -420,5 +424,84 @@ inductive Mode where
 def openerInit (table : List (String × Codec)) (icase : Bool) (mode : Mode) (name : List Char) :
     Codec × Mode :=
   (codecFor table icase name, mode)
+
+/-! ### the `dtype=` argument of `to_file_map` / `to_filename` / `to_bytes` / `to_stream` / `save` -/
+
+/-- byte-order character of the dtype object handed to `dtype=` (`'='`/`'|'`, `'<'`, `'>'`) -/
+inductive OrderSpell where
+  | native | little | big
+  deriving Repr, DecidableEq, Inhabited
+
+/-- the part of an Analyze-family header the writer consults: its byte order (fixed at construction /
+    load) and the data-type CODE (which names a dtype without a byte order) -/
+structure Hdr where
+  endian : Endian
+  dtype : DType
+  deriving Repr, DecidableEq, Inhabited
+
+/-- `hdr.set_data_dtype(dt)` (analyze.py:556-583): `_data_type_codes` is keyed by the dtype in BOTH
+    byte orders and yields the code; the byte order of `dt` is dropped, the header's order stays -/
+def Hdr.setDType (h : Hdr) (t : DType) (_spell : OrderSpell) : Hdr := { h with dtype := t }
+
+/-- `hdr.get_data_dtype()` (analyze.py:545-554): `dtype_of_code.newbyteorder(self.endianness)` -/
+def Hdr.getDType (h : Hdr) : DType × Endian := (h.dtype, h.endian)
+
+/-- the dtype bookkeeping of `AnalyzeImage.to_file_map(file_map, dtype=ovr)` (analyze.py:1009-1015 and
+    the `finally` block 1058-1066): returns (on-disk dtype and byte order the ArrayWriter is given,
+    the header as it is WRITTEN, the image's header after the call). -/
+def saveDType (h : Hdr) (ovr : Option (DType × OrderSpell)) : (DType × Endian) × Hdr × Hdr :=
+  let saved := h.dtype                               -- data_dtype = hdr.get_data_dtype()
+  let hw := match ovr with
+    | some (t, sp) => h.setDType t sp                -- if dtype is not None: hdr.set_data_dtype(dtype)
+    | none => h
+  let out := hw.getDType                             -- out_dtype = hdr.get_data_dtype()
+  (out, hw, hw.setDType saved .native)               -- finally: hdr.set_data_dtype(data_dtype)
+
+/-- the seeded variant `out_dtype = np.dtype(dtype)`: the override's own (native unless spelled
+    otherwise) byte order reaches the writer -/
+def saveDTypeNativeMutant (native : Endian) (h : Hdr) (ovr : Option (DType × OrderSpell)) :
+    (DType × Endian) × Hdr × Hdr :=
+  match ovr with
+  | none => saveDType h none
+  | some (t, sp) =>
+      let e := match sp with | .native => native | .little => .little | .big => .big
+      ((t, e), h.setDType t sp, h)
+
+/-- a save through `to_file_map(dtype=ovr)`: the data file -/
+def writeFileDT (hb : List Nat) (offset : Nat) (h : Hdr) (ovr : Option (DType × OrderSpell))
+    (shape : List Nat) (A : List Nat → Elem) : List Nat :=
+  let p := saveDType h ovr
+  writeFile hb offset p.1.2 p.1.1.cw shape A
+
+/-- loading that file: the reader takes dtype and byte order from the WRITTEN header -/
+def readFileDT (file : List Nat) (offset : Nat) (h : Hdr) (ovr : Option (DType × OrderSpell))
+    (shape : List Nat) : Except Err (List Nat × List Elem) :=
+  let hw := (saveDType h ovr).2.1
+  readData file offset hw.endian hw.dtype.cw hw.dtype.k shape
+
+/-! ### a loaded image saved over its own file -/
+
+/-- `img = load(f); img.to_filename(f)` (analyze.py:1001-1005 / mghformat.py:548-551): the voxel data of
+    a loaded image are a window onto the file (np.memmap) or are read when asked for; `copyFirst` says
+    whether they are materialised BEFORE `get_prepare_fileobj('wb')` truncates the file (the real code:
+    always - `np.asanyarray(self.dataobj)` reads a non-mmap proxy eagerly, an `np.memmap` is copied with
+    `np.array`).  The decision never looks at file NAMES. -/
+def resave (hb : List Nat) (offset : Nat) (e : Endian) (cw k : Nat) (shape : List Nat)
+    (A : List Nat → Elem) (copyFirst : Bool) : Except Err (List Nat) :=
+  let f1 := writeFile hb offset e cw shape A
+  let src := if copyFirst then f1 else []            -- open(name, 'wb') truncates
+  match readData src offset e cw k shape with
+  | .error er => .error er
+  | .ok (sh, els) => .ok (writeFile hb offset e cw sh (loadedAt sh els))
+
+def mghResave (hdr ftr : List Nat) (cw k : Nat) (imgShape : List Nat) (A : List Nat → Elem)
+    (copyFirst : Bool) : Except Err (List Nat) :=
+  match mghWrite hdr ftr cw imgShape A with
+  | .error er => .error er
+  | .ok f1 =>
+    let src := if copyFirst then f1 else []
+    match readData src mghDataOffset .big cw k imgShape with
+    | .error er => .error er
+    | .ok (sh, els) => mghWrite hdr ftr cw sh (loadedAt sh els)
 
 end Nb.C01
